@@ -322,8 +322,42 @@ func c16Palette(c *Ctx, p *Prog) {
 	c.Check(okExpr && bad == "", "C16-R4", "PaletteColor:all-256-indices", p.pos(fn.Pos()), "PaletteColor(i) = Color(i)|ColorValid for every i in 0..255 "+bad)
 }
 
+// c16GetColor: "#rrggbb" is six hex digits; a parser that takes a sign accepts "#-00001" and
+// builds a colour with every flag bit set.
+func c16GetColor(c *Ctx, p *Prog) {
+	fn := p.Fn("tcell:GetColor")
+	if fn == nil {
+		c.Undecided("C16-R4", "GetColor", "-", "not found")
+		return
+	}
+	ok, detail := false, "no hexadecimal parse found"
+	eachInstr(fn, func(in ssa.Instruction) {
+		cc := callCommon(in)
+		if cc == nil {
+			return
+		}
+		switch calleeName(cc) {
+		case "strconv.ParseUint":
+			if b, isB := constInt(cc.Args[1]); isB && b == 16 {
+				ok, detail = true, "strconv.ParseUint(_, 16, _)"
+			}
+		case "strconv.ParseInt", "strconv.Atoi":
+			ok, detail = false, calleeName(cc)+" accepts a leading sign: \"#-00001\" becomes a colour"
+		}
+	})
+	// and it is applied only to names of the form '#' + six characters
+	okLen := false
+	for a := range atomsOf(fn) {
+		if strings.Contains(a, "len(name) == 7") {
+			okLen = true
+		}
+	}
+	c.Check(ok && okLen, "C16-R4", "GetColor:hex-unsigned", p.pos(fn.Pos()), "hex colours are parsed unsigned from exactly '#' plus six characters: "+detail)
+}
+
 func c16Gates(c *Ctx, p *Prog) {
 	c16Palette(c, p)
+	c16GetColor(c, p)
 	def := pkgConst(p, "ColorDefault")
 	get := func(name string) *ssa.Function {
 		named := p.namedType(p.Tcell, "Color")
